@@ -212,6 +212,11 @@ def obligations(tier, seed):
     obs.append(ob("c05.CJJ14.Pi2Lev.uneven", "harness.c05", "h_shape",
                   {"scheme": "CJJ14.Pi2Lev", "over": uneven, "a": 0, "seed": seed, "mult": 21, "max_n1": 5},
                   budget_s=400))
+    # SSE-1: node = identifier || key || address; fillers must have the length of an encrypted node, which only
+    # shows when identifier_size + param_k sits just below a cipher-block boundary
+    for ci, over in enumerate(({"param_identifier_size": 7}, {"param_k": 16, "param_identifier_size": 15})):
+        obs.append(ob("c05.CGKO06.SSE1.straddle%d" % ci, "harness.c05", "h_shape",
+                      {"scheme": "CGKO06.SSE1", "over": over, "a": 1, "seed": seed, "max_n1": 2}, budget_s=400))
     if tier == "quick":
         for a in (0, 1, 3):
             obs.append(ob("c05.DP17.Pi.L2.a%d" % a, "harness.c05", "h_shape",
